@@ -136,7 +136,13 @@ impl SocketSend for RepSocket {
                     if let Some(envelope) = self.envelope.take() {
                         message.prepend(&envelope);
                     }
-                    peer.send_queue.send(Message::Message(message)).await?;
+                    let sent = peer.send_queue.send(Message::Message(message)).await;
+                    drop(peer);
+                    if let Err(e) = sent {
+                        // The requester's connection is dead: release it.
+                        self.backend.peer_disconnected(&peer_id);
+                        return Err(e.into());
+                    }
                     Ok(())
                 } else {
                     Err(ZmqError::ReturnToSender {
